@@ -134,7 +134,11 @@ func (c *Chan) Entry() (IteratorEntry, bool) {
 }
 
 func (c *Chan) Iter() Iterator {
-	return c
+	// Every iteration gets its own bookkeeping (last received value and count)
+	// over the same underlying channel. Goroutines that iterate one channel
+	// concurrently must not share it, or a value is handed to two of them
+	// while another value is lost.
+	return &Chan{value: c.value, capacity: c.capacity}
 }
 
 func (c *Chan) Send(ctx context.Context, value Object) (err error) {
